@@ -84,6 +84,21 @@ def main(ctx):
     quick = ctx.tier == 'quick'
     rnd = random.Random(ctx.seed + 4)
 
+    if ctx.replay_path:
+        import json
+        with open(ctx.replay_path) as f:
+            rp = json.load(f)['replay']
+        case = dict(rp['case'], rule=rp['rule'], asis=rp['asis'])
+        r = HT.attempt(case, rp['variant'], workdir=None)
+        tally = {}
+        judge(ctx, HT, 'replay', case, rp['variant'], r, tally)
+        print(f'replayed: rule={case["rule"]} accepted={r.accepted} '
+              f'error={r.exc_class}: {r.exc} server_begin_auth='
+              f'{r.server_begin_auth}\nknown_hosts:\n{r.kh_text}')
+        ctx.traces_validated(1)
+        ctx.level = 'exploration'
+        return
+
     # ---- 1. design check -------------------------------------------------
     # (the four base configurations are checked exhaustively by the runs
     # that also print the decision table, see below)
@@ -235,6 +250,7 @@ def judge(ctx, HT, tname, case, variant, r, tally):
     ctx.count((tname, str(slim(case)), tuple(r.forms), r.info['ktype'],
                r.info['alias'], r.info['by_addr']), nontrivial=True)
     replay = {'kind': 'host_trust', 'case': slim(case), 'variant': variant,
+              'rule': case['rule'], 'asis': case['asis'],
               'known_hosts': r.kh_text, 'forms': r.forms, 'info': r.info}
     if r.mitm_errors:
         raise MachineryError(f'wire observer failed: {r.mitm_errors}')
